@@ -10,7 +10,7 @@ K = 'Kani loop-free full-domain harnesses on the compiled crate'
 PROPS = {
     'C03': dict(
         title='Expressions evaluate by the Rockstar value rules for every operand kind',
-        verus=['val_ops', 'fold', 'produce'], kani=['c03_'],
+        verus=['val_ops', 'fold', 'produce', 'exec_glue'], kani=['c03_'],
         technique=V + ' (val.rs coercion/comparison/arithmetic/rendering against reference tables for all six kinds; '
                       'produce_val.rs operator step incl. short-circuit call counts; floats uninterpreted) + ' + K +
                   ' (all f64/bool payloads of the four scalar kinds, IEEE bit-precise, through Val::* and binary_operator_fold)',
@@ -49,7 +49,7 @@ PROPS = {
     ),
     'C14': dict(
         title='Equality, ordering and logic obey their algebraic laws',
-        verus=['laws', 'val_ops', 'fold'], kani=['c14_'],
+        verus=['laws', 'val_ops', 'fold', 'exec_glue'], kani=['c14_'],
         technique=K + ' proving the laws directly on compiled equals/compare/fold for all scalar payloads + ' + V +
                   ' (tables from which the laws follow for all six kinds)',
     ),
